@@ -151,8 +151,10 @@ def run_unit(unit):
     p = V(v)
     A = c04.alphabet(v)
     surfs = LZ.with_stop(LZ.fix_thickness_signs([A[i] for i in unit['word']]), unit['stop'])
-    for obj, ft, mf in ((LZ.INF, 'angle', p['ang']), (p['od'][0], 'object_height', p['h']), (p['od'][0], 'angle', p['ang'])):
-        sp = LZ.spec(surfs, obj=obj, ap=('EPD', p['epd']), ftype=ft, fields=(0.0, mf), waves=((0.5876, True),))
+    epd_ = ('EPD', p['epd'])
+    for obj, ft, mf, apx in ((LZ.INF, 'angle', p['ang'], epd_), (p['od'][0], 'object_height', p['h'], epd_), (p['od'][0], 'angle', p['ang'], epd_),
+                             (p['od'][0], 'object_height', p['h'], ('objectNA', p['na'])), (LZ.INF, 'angle', p['ang'], ('imageFNO', p['fno']))):
+        sp = LZ.spec(surfs, obj=obj, ap=apx, ftype=ft, fields=(0.0, mf), waves=((0.5876, True),))
         o = LZ.build(sp)
         part.states += 1
         rows = prescription.rows(sp, lambda m, prev: LZ.ref_index(m, 0.5876, prev))
@@ -160,8 +162,12 @@ def run_unit(unit):
         if abcd.pupil_degenerate(rows):
             part.count('skipped-telecentric-pupil')
             continue
-        cond = f"object={'infinite' if math.isinf(obj) else 'finite'},field={ft},stop={c04.stop_class(rows)},mirrors={c04.mirror_class(rows)}"
-        det = dict(word=unit['word'], stop=unit['stop'], variant=v, obj=obj, ftype=ft)
+        if apx[0] == 'imageFNO' and abs(abcd.cardinal(rows)['C']) < 1e-9:
+            part.count('skipped-afocal')
+            continue
+        cond = f"object={'infinite' if math.isinf(obj) else 'finite'},field={ft},stop={c04.stop_class(rows)},mirrors={c04.mirror_class(rows)}" + \
+               ('' if apx[0] == 'EPD' else f',aperture={apx[0]}')
+        det = dict(word=unit['word'], stop=unit['stop'], variant=v, obj=obj, ftype=ft, aperture=list(apx))
         study(part, o, rows, 'marginal', ft, mf, obj, '', cond, det)
         study(part, o, rows, 'chief', ft, mf, obj, '', cond, det)
         # ---- history: change the index of the first glass, observe again on the same lens object -----------------
@@ -172,7 +178,7 @@ def run_unit(unit):
             part.count('set_index-edits-skipped-mirror-follows')
             gi = None
         if gi is not None:
-            sp2 = LZ.spec(surfs, obj=obj, ap=('EPD', p['epd']), ftype=ft, fields=(0.0, mf), waves=((0.5876, True),))
+            sp2 = LZ.spec(surfs, obj=obj, ap=apx, ftype=ft, fields=(0.0, mf), waves=((0.5876, True),))
             sp2['surfs'][gi]['mat'] = ['ideal', 1.80, 0.0]
             o.set_index(1.80, gi + 1)
             part.transitions += 1
